@@ -147,6 +147,16 @@ impl Op {
     }
 }
 
+/// built-in methods by number (see `Typing.methodSig`); 99 is a name no type has
+pub const METHODS: [&str; 15] = [
+    "len", "push", "get", "contains", "is_empty", "to_uppercase", "starts_with", "repeat", "replace", "split",
+    "strip_prefix", "trim", "concat", "index", "swap",
+];
+
+pub fn method_name(m: usize) -> &'static str {
+    METHODS.get(m).copied().unwrap_or("no_such_method")
+}
+
 #[derive(Clone, Copy, Debug, PartialEq)]
 pub enum RetKind {
     Return,
@@ -185,6 +195,8 @@ pub enum Expr {
     For(usize, Box<Expr>, Block),
     BlockE(Block),
     Call(usize, Vec<Expr>),
+    /// `e.m(args)` with `m` a built-in method (`METHODS`)
+    MCall(Box<Expr>, usize, Vec<Expr>),
     Assign { is_const: bool, x: usize, path: Vec<usize>, e: Box<Expr> },
     CAssign { op: Op, is_const: bool, x: usize, path: Vec<usize>, e: Box<Expr> },
     Ret(RetKind, Option<Box<Expr>>),
@@ -265,6 +277,7 @@ impl Expr {
                 | Expr::Var(_)
                 | Expr::Const(_)
                 | Expr::Call(..)
+                | Expr::MCall(..)
                 | Expr::ListLit(_)
                 | Expr::Ctor(..)
                 | Expr::Some(_)
@@ -315,6 +328,12 @@ impl Expr {
             Expr::Call(f, args) => {
                 format!("f{f}({})", args.iter().map(|a| a.roto()).collect::<Vec<_>>().join(", "))
             }
+            Expr::MCall(e, m, args) => format!(
+                "{}.{}({})",
+                e.roto_p(),
+                method_name(*m),
+                args.iter().map(|a| a.roto()).collect::<Vec<_>>().join(", ")
+            ),
             Expr::Assign { is_const, x, path, e } => {
                 format!("{} = {}", path_str(*is_const, *x, path), e.roto_p())
             }
@@ -407,6 +426,11 @@ impl Expr {
             Expr::For(x, e, b) => format!("(for {x} {} {})", e.sexp(), b.sexp()),
             Expr::BlockE(b) => format!("(block {})", b.sexp()),
             Expr::Call(f, args) => format!("(call {f}{})", args.iter().map(|a| format!(" {}", a.sexp())).collect::<String>()),
+            Expr::MCall(e, m, args) => format!(
+                "(mcall {} {m}{})",
+                e.sexp(),
+                args.iter().map(|a| format!(" {}", a.sexp())).collect::<String>()
+            ),
             Expr::Assign { is_const, x, path, e } => format!(
                 "(set {} {x} ({}) {})",
                 *is_const as u8,
